@@ -14,7 +14,7 @@ from pathlib import Path
 from . import tablelib as tl
 from .tlc import make_cfg, run_tlc
 
-VALS = [1, 2, 3, tl.S, tl.E, tl.E]
+VALS = [1, 2, 3, tl.S, tl.E, tl.E, tl.Z]
 
 
 def rand_row(rng, maxw=5):
@@ -64,7 +64,7 @@ def rand_op(rng, state, maxn=4):
     if kind in ("set_cell", "insert_cell"):
         return {"op": kind, "x": x, "y": y, "c": c, "n": n}
     if kind == "set_value":
-        return {"op": kind, "x": x, "y": y, "c": rng.choice([1, 2, 3, tl.E])}
+        return {"op": kind, "x": x, "y": y, "c": rng.choice([1, 2, 3, tl.E, tl.Z])}
     if kind == "append_cell":
         return {"op": kind, "y": y, "c": c, "n": n}
     if kind == "delete_cell":
@@ -76,9 +76,9 @@ def rand_op(rng, state, maxn=4):
     if kind == "delete_row":
         return {"op": kind, "y": y}
     if kind == "set_row_values":
-        return {"op": kind, "y": y, "r": [rng.choice([1, 2, 3, tl.E]) for _ in range(rng.randint(0, 5))]}
+        return {"op": kind, "y": y, "r": [rng.choice([1, 2, 3, tl.E, tl.Z]) for _ in range(rng.randint(0, 5))]}
     if kind == "set_values":
-        m = [[rng.choice([1, 2, 3, tl.E]) for _ in range(rng.randint(0, 3))] for _ in range(rng.randint(1, 3))]
+        m = [[rng.choice([1, 2, 3, tl.E, tl.Z]) for _ in range(rng.randint(0, 3))] for _ in range(rng.randint(1, 3))]
         return {"op": kind, "x": rng.randint(0, w + 1), "y": y, "m": m}
     xc = rng.choice([rng.randint(0, max(0, w - 1)), w, w + 1])
     if kind in ("insert_column", "set_column"):
@@ -116,7 +116,7 @@ def rand_row_op(rng, row):
     if kind == "row_delete_cell":
         return {"op": kind, "x": x}
     if kind == "row_set_values":
-        return {"op": kind, "x": x, "r": [rng.choice([1, 2, 3, tl.E]) for _ in range(rng.randint(0, 4))]}
+        return {"op": kind, "x": x, "r": [rng.choice([1, 2, 3, tl.E, tl.Z]) for _ in range(rng.randint(0, 4))]}
     return {"op": "row_rstrip", "c": rng.choice((0, 1))}
 
 
